@@ -132,7 +132,7 @@ func c06a(c *Ctx) {
 				continue
 			}
 			c.Check(f["command"] == cmdT, key+"/command", pos, "record points at the command being built", "record's command is "+f["command"]+", expected the command being built")
-			c.Check(strings.HasPrefix(f["argPos"], "builtin:len(") && strings.Contains(f["argPos"], cmdT+".Args"), key+"/argPos", pos, "argument index = number of arguments closed so far", "record's argPos is "+pretty(f["argPos"])+", expected len(command.Args) at this point")
+			c.Check(wholeCall(f["argPos"], "builtin:len(") && strings.Contains(f["argPos"], cmdT+".Args"), key+"/argPos", pos, "argument index = number of arguments closed so far", "record's argPos is "+pretty(f["argPos"])+", expected len(command.Args) at this point")
 			c.Check(f["scriptName"] == "$1", key+"/scriptName", pos, "record carries the owning script name", "record's scriptName is "+f["scriptName"])
 			// placeholder appended to argParts in the same block, exactly one
 			ph := 0
@@ -1274,4 +1274,33 @@ func c06aScriptName(c *Ctx, fn *ssa.Function) {
 		}
 	}
 	c.Check(nCalls >= 20 && nRoots >= 2, "script-name/census", c.W.FuncPos(fn), fmt.Sprintf("%d hand-overs of the script name followed up to %d script parsers", nCalls, nRoots), fmt.Sprintf("only %d hand-overs of the script name and %d starting points found", nCalls, nRoots))
+}
+
+// wholeCall: the term is one call of the given head — the parenthesis opened by the head closes at
+// the very end (so `len(x)+1` is not `len(…)`).
+func wholeCall(term, head string) bool {
+	if !strings.HasPrefix(term, head) || !strings.HasSuffix(term, ")") {
+		return false
+	}
+	depth := 0
+	inStr := false
+	for i := len(head) - 1; i < len(term); i++ {
+		ch := term[i]
+		if ch == '"' && (i == 0 || term[i-1] != '\\') {
+			inStr = !inStr
+		}
+		if inStr {
+			continue
+		}
+		switch ch {
+		case '(':
+			depth++
+		case ')':
+			depth--
+			if depth == 0 {
+				return i == len(term)-1
+			}
+		}
+	}
+	return false
 }
